@@ -42,6 +42,9 @@ func gen(r *rand.Rand, tier string, i int) input {
 	if r.IntN(60) == 0 {
 		wkp.Boundary(r, &in.F)
 	}
+	if r.IntN(6) == 0 { // value relations between numeric fields and string lengths (after Boundary: lengths are final)
+		wkp.RelateAny(r, &in.F, v)
+	}
 	switch r.IntN(4) {
 	case 0:
 	case 1:
